@@ -28,6 +28,7 @@ type fullRec struct {
 	Tree []skelNode  `json:"tree"`
 	Inl  [][]inlNode `json:"inl"`
 	HTML [][]int     `json:"html"`
+	HCfg [][][]int   `json:"hcfg"` // HTML per root block under: soft breaks as spaces, soft breaks hardened, IgnoreRaw
 }
 
 var fullInlineNames = map[commonmark.InlineKind]string{
@@ -168,6 +169,61 @@ func fullCheck(res *Result, r *fullRec) {
 			return
 		}
 	}
+	// the other renderer configurations
+	cfgs := []commonmark.HTMLRenderer{
+		{SoftBreakBehavior: commonmark.SoftBreakBehavior(1)},
+		{SoftBreakBehavior: commonmark.SoftBreakBehavior(2)},
+		{IgnoreRaw: true},
+	}
+	for c := range r.HCfg {
+		if c >= len(cfgs) {
+			break
+		}
+		var got []string
+		func() {
+			defer func() {
+				if x := recover(); x != nil {
+					pm = fmt.Sprint(x)
+				}
+			}()
+			blocks, refs := commonmark.Parse(append([]byte(nil), src...))
+			rd := cfgs[c]
+			rd.ReferenceMap = refs
+			for _, b := range blocks {
+				got = append(got, string(rd.AppendBlock(nil, b)))
+			}
+		}()
+		if pm != "" {
+			res.addCandidate(Candidate{Sig: map[string]any{"input": ints(src), "class": "panic"}, Record: rec, What: fmt.Sprintf("%q: panic %s", src, pm)})
+			return
+		}
+		for i := range r.HCfg[c] {
+			want := string(bytesOf(r.HCfg[c][i]))
+			if i >= len(got) || normEdgeCfg(want, c) != normEdgeCfg(got[i], c) {
+				g := ""
+				if i < len(got) {
+					g = got[i]
+				}
+				res.addCandidate(Candidate{Sig: map[string]any{"input": ints(src), "class": fmt.Sprintf("full:html-cfg%d", c+1)}, Record: rec,
+					What: fmt.Sprintf("%q: HTML of root block %d under configuration %d (1 soft breaks as spaces, 2 hardened, 3 IgnoreRaw):\n      spec  %q\n      code  %q", src, i, c+1, want, g)})
+				return
+			}
+		}
+	}
+}
+
+var reSpaces = regexp.MustCompile(`[ \t]{2,}`)
+var reBeforeBr = regexp.MustCompile(`[ \t]+<br>`)
+
+// normEdgeCfg: with soft breaks rendered as spaces the kept line-edge spaces (deviation LineEdgeSpace) are runs of spaces.
+func normEdgeCfg(s string, c int) string {
+	s = normEdge(s)
+	s = reBeforeBr.ReplaceAllString(s, "<br>")
+	if c == 0 {
+		s = reSpaces.ReplaceAllString(s, " ")
+		s = strings.ReplaceAll(s, " <", "<")
+	}
+	return s
 }
 
 func cmdFull(args []string) *Result {
